@@ -283,6 +283,36 @@ func TestC02(t *testing.T) {
 			}
 		}
 	}
+	// (vi) fingerprinted padded captures replayed under every server-name length
+	var sweep int64
+	capIDs := []tls.ClientHelloID{tls.HelloChrome_83, tls.HelloChrome_102, tls.HelloChrome_133, tls.HelloFirefox_105, tls.HelloIOS_14, tls.HelloEdge_106}
+	if mon.Thorough() {
+		capIDs = nil
+		for _, p := range AllParrots {
+			capIDs = append(capIDs, p.ID)
+		}
+	}
+	for ci, id := range capIDs {
+		for _, capLen := range []int{11, 60} {
+			capRaw, _, err, _ := buildHello(&tls.Config{ServerName: sniOfLen(capLen, ci), OmitEmptyPsk: true}, id, nil)
+			if err != nil {
+				continue
+			}
+			for _, always := range []bool{false, true} {
+				for l := 3; l <= 253; l++ {
+					f := &tls.Fingerprinter{AlwaysAddPadding: always}
+					spec, err := f.FingerprintClientHello(recordOf(capRaw))
+					if err != nil {
+						break
+					}
+					raw, _, err, pn := buildHello(&tls.Config{ServerName: sniOfLen(l, l), OmitEmptyPsk: true}, tls.HelloCustom, func(u *tls.UConn) error { return u.ApplyPreset(spec) })
+					check("vi", "fingerprinted-capture/"+id.Str(), l, raw, err, pn)
+					sweep++
+				}
+			}
+		}
+	}
+	r.Count("capture_replay_sweep", sweep)
 	r.Count("foreign_imported", imported)
 	r.Count("foreign_rejected_by_importer", rejected)
 	r.Count("hellos_emitted", emitted)
